@@ -419,19 +419,32 @@ def run(ctx):
     ctx.rule('R-PACKROUND', 'pack2d: the first-column sweep and the row sweep use the same conversion INT((value - previous) * SCEXP + 127.5)')
     ic = [st for st in iter_stmts(pk.body) if isinstance(st, ast.Assign) and norm(st.targets[0]) == 'ICVAL']
 
-    def shape_of(e):
+    # local aliases of numpy scalar types (INT = np.int32) and single-use value temporaries are resolved: the conversion is what counts
+    alias = dict((s2.targets[0].id, norm(s2.value)) for s2 in iter_stmts(pk.body) if isinstance(s2, ast.Assign) and isinstance(s2.targets[0], ast.Name)
+                 and norm(s2.value) in ('np.int32', 'np.float32', 'np.int64', 'int', 'float'))
+
+    def shape_of(e, st=None):
+        from .. import paths as _paths
+        if st is not None:
+            env = _paths.dominating_env(pk, st, deep=False)
+            env = dict((k_, v_) for k_, v_ in env.items() if isinstance(v_, ast.Subscript) and norm(v_.value) == 'RVAR')     # RNEW = RVAR[..]
+            e = _paths.subst(e, env)
         t = re.sub(r'RVAR\[[^\]]*\]', 'RVAR[.]', norm(e))
+        for a_, full in alias.items():
+            t = re.sub(r'\b%s\(' % re.escape(full), a_ + '(', t) if a_ == 'INT' else t
+        if 'INT' not in alias:
+            t = re.sub(r'\bnp\.int32\(', 'INT(', t)
         return t
-    shapes = sorted(set(shape_of(st.value) for st in ic))
+    shapes = sorted(set(shape_of(st.value, st) for st in ic))
     if len(ic) < 2:
         ctx.undec('R-PACKROUND', 'ICVAL', wpk, 'fewer than two conversion sites')
     elif len(shapes) == 1 and shapes[0].startswith('INT('):
         ctx.ok('R-PACKROUND', 'ICVAL', wpk, '%d sites: %s' % (len(ic), shapes[0]))
     else:
-        odd = [st for st in ic if not shape_of(st.value).startswith('INT(')] or ic[1:]
+        odd = [st for st in ic if not shape_of(st.value, st).startswith('INT(')] or ic[1:]
         ctx.violation(Finding('R-PACKROUND', RP, 'pack2d', odd[0], 'the packed integer is computed as %s here but as %s in the other sweep: for a scaled difference in (-128.5, -127.5) one rounds to -1 '
                               '(stored as byte 255) where the other gives 0, so a steep negative step is decoded about 256 quantisation steps off' % (
-                                  shape_of(odd[0].value)[:60], [x for x in shapes if x != shape_of(odd[0].value)][:1] or shapes[:1])))
+                                  shape_of(odd[0].value, odd[0])[:60], [x for x in shapes if x != shape_of(odd[0].value, odd[0])][:1] or shapes[:1])))
     # ---- R-HEADPAIR: the per-record header fields handed to unpack are indexed alike (each record is decoded with its own VAR1 and EXP)
     ctx.rule('R-HEADPAIR', 'reader: VAR1 and EXP passed to unpack come from the header table with the same indexing')
     gvf = mod.func('arlpackedbit._getvar')
@@ -487,27 +500,47 @@ def run(ctx):
     ctx.rule('R-GRIDSLOT', 'inqarlpackedbit: the x offset comes from GRID[0] and is added to NX, the y offset from GRID[1] and is added to NY')
     iq = mod.func('inqarlpackedbit')
     wiq = 'src/PseudoNetCDF/%s inqarlpackedbit' % RP
+    # the values stored under 'NX' / 'NY' (item stores or a dict display), temporaries substituted: each is its own header count plus
+    # an offset decoded from its own GRID byte
+    from .. import paths as _paths
     ng = 0
+    vals_ = {}
     for st in iter_stmts(iq.body):
-        if isinstance(st, ast.Assign) and isinstance(st.targets[0], ast.Name) and re.match(r'^grid[xy]_off$', st.targets[0].id):
-            ax = st.targets[0].id[4]
-            idx = [n.slice.value for n in ast.walk(st.value) if isinstance(n, ast.Subscript) and isinstance(n.slice, ast.Constant) and isinstance(n.slice.value, int)
-                   and "['GRID']" in norm(n.value)]
-            ng += 1
-            if idx == [{'x': 0, 'y': 1}[ax]]:
-                ctx.ok('R-GRIDSLOT', st.targets[0].id, wiq, "GRID[%d]" % idx[0])
-            else:
-                ctx.violation(Finding('R-GRIDSLOT', RP, 'inqarlpackedbit', st, 'the %s offset is decoded from GRID%s instead of GRID[%d]: grids with more than 999 cells in one direction '
-                                      'get the wrong shape' % (ax, idx, {'x': 0, 'y': 1}[ax])))
-        if isinstance(st, ast.Assign) and norm(st.targets[0]) in ("out['NX']", "out['NY']"):
-            ax = norm(st.targets[0])[6].lower()
-            names = [n.id for n in ast.walk(st.value) if isinstance(n, ast.Name) and re.match(r'^grid[xy]_off$', n.id)]
-            hf = [const_str(n.slice) for n in ast.walk(st.value) if isinstance(n, ast.Subscript) and const_str(n.slice) in ('NX', 'NY')]
-            ng += 1
-            if names == ['grid%s_off' % ax] and hf == ['N' + ax.upper()]:
-                ctx.ok('R-GRIDSLOT', norm(st.targets[0]), wiq, norm(st.value))
-            else:
-                ctx.violation(Finding('R-GRIDSLOT', RP, 'inqarlpackedbit', st, '%s is built from %s + %s' % (norm(st.targets[0]), hf, names)))
+        if isinstance(st, ast.Assign):
+            env = None
+            for t_ in st.targets:
+                if isinstance(t_, ast.Subscript) and const_str(t_.slice) in ('NX', 'NY'):
+                    env = env if env is not None else _paths.dominating_env(iq, st)
+                    vals_[const_str(t_.slice)] = (_paths.subst(st.value, env), st)
+            for d_ in [n for n in ast.walk(st.value) if isinstance(n, ast.Dict)]:
+                for k_, v_ in zip(d_.keys, d_.values):
+                    if const_str(k_) in ('NX', 'NY'):
+                        env = env if env is not None else _paths.dominating_env(iq, st)
+                        vals_[const_str(k_)] = (_paths.subst(v_, env), st)
+        if isinstance(st, ast.Return) and st.value is not None:
+            for d_ in [n for n in ast.walk(st.value) if isinstance(n, ast.Dict)]:
+                env = _paths.dominating_env(iq, st)
+                for k_, v_ in zip(d_.keys, d_.values):
+                    if const_str(k_) in ('NX', 'NY'):
+                        vals_[const_str(k_)] = (_paths.subst(v_, env), st)
+    for key, gi in (('NX', 0), ('NY', 1)):
+        if key not in vals_:
+            continue
+        v_, st = vals_[key]
+        ng += 2
+        idx = [n.slice.value for n in ast.walk(v_) if isinstance(n, ast.Subscript) and isinstance(n.slice, ast.Constant) and isinstance(n.slice.value, int)
+               and "['GRID']" in norm(n.value)]
+        hf = [const_str(n.slice) for n in ast.walk(v_) if isinstance(n, ast.Subscript) and const_str(n.slice) in ('NX', 'NY')]
+        ax = key[1].lower()
+        if idx == [gi]:
+            ctx.ok('R-GRIDSLOT', 'grid%s_off' % ax, wiq, "GRID[%d]" % gi)
+        else:
+            ctx.violation(Finding('R-GRIDSLOT', RP, 'inqarlpackedbit', st, 'the %s offset is decoded from GRID%s instead of GRID[%d]: grids with more than 999 cells in one direction '
+                                  'get the wrong shape' % (ax, idx, gi)))
+        if hf == [key]:
+            ctx.ok('R-GRIDSLOT', "out['%s']" % key, wiq, norm(v_)[:80])
+        else:
+            ctx.violation(Finding('R-GRIDSLOT', RP, 'inqarlpackedbit', st, "out['%s'] is built from header field(s) %s" % (key, hf)))
     ctx.floor('grid offset statements', ng, 4)
     # ---- R-VGTXT: six-character level texts reproduce the level (finite case analysis over magnitudes incl. exact powers of ten)
     ctx.rule('R-VGTXT', 'getvgtxts: the 6-character text of a level parses back to the level for every magnitude below 1e5')
@@ -557,11 +590,28 @@ def run(ctx):
     wmap = 'src/PseudoNetCDF/%s maparlpackedbit' % RP
     if not hd:
         raise AnalysisError('anchor vanished: hdrdtype in maparlpackedbit')
-    fill = to_poly(hd[0].value.args[0].right, {}, atomize=lambda n: 'TH' if norm(n) == 'thdtype.itemsize' else None)
+    # size algebra over nx, ny, hlen and the time-header size; a named cell count (ncell = nx * ny, under any name) is substituted
+    from .. import paths as _paths
+    atomz = lambda n: 'TH' if norm(n) == 'thdtype.itemsize' else None
+    fexpr = hd[0].value.args[0].right if isinstance(hd[0].value, ast.Call) and hd[0].value.args and isinstance(hd[0].value.args[0], ast.BinOp) else None
+    if fexpr is None:
+        raise AnalysisError('construct not understood: filler length of the index record in maparlpackedbit')
+    if isinstance(fexpr, ast.Tuple) and len(fexpr.elts) == 1:
+        fexpr = fexpr.elts[0]
+    denv = _paths.dominating_env(mp, hd[0], keep=('nx', 'ny', 'hlen'))
+    penv = {}
+    for k_, v_ in denv.items():
+        try:
+            if not any(isinstance(x, ast.Call) for x in ast.walk(v_)):
+                penv[k_] = to_poly(v_, {}, atomize=atomz)
+        except Exception:
+            pass
+    fill = to_poly(fexpr, penv, atomize=atomz)
     total = fill + Poly.atom('hlen') + Poly.atom('TH')
-    data_rec = Poly.const(vh) + Poly.atom('ncell')
-    if total == data_rec and "'(%d,%d)>1S' % (ny, nx)" in norm(mp) and 'ncell = nx * ny' in norm(mp):
-        ctx.ok('R-RECLEN', 'index vs data record', wmap, 'time header + hlen + filler = %s = vhdtype (%d) + ncell' % (total, vh))
+    data_rec = Poly.const(vh) + Poly.atom('nx') * Poly.atom('ny')
+    cellfmt = any(isinstance(n, ast.BinOp) and isinstance(n.op, ast.Mod) and isinstance(n.left, ast.Constant) and n.left.value == '(%d,%d)>1S' and norm(n.right) == '(ny, nx)' for n in ast.walk(mp))
+    if total == data_rec and cellfmt:
+        ctx.ok('R-RECLEN', 'index vs data record', wmap, 'time header + hlen + filler = %s = vhdtype (%d) + nx*ny' % (total, vh))
     else:
         ctx.violation(Finding('R-RECLEN', RP, 'maparlpackedbit', hd[0], 'index record is %s bytes but a data record is %s bytes: records are not of equal length' % (total, data_rec)))
     # ---- R-LAYKEYSHAPE
